@@ -1098,6 +1098,27 @@ func (s *meekSrv) serve(conn net.Conn) {
 				}
 			}
 			return
+		case s.mode == "body-chunked-1MiB":
+			// a body of undeclared length, far beyond what a meek response may carry
+			conn.Write([]byte("HTTP/1.1 200 OK\r\nTransfer-Encoding: chunked\r\nContent-Type: application/octet-stream\r\n\r\n"))
+			chunk := o4h.Pattern('K', 0, 32768)
+			for i := 0; i < 32; i++ {
+				if _, err := fmt.Fprintf(conn, "%x\r\n", len(chunk)); err != nil {
+					return
+				}
+				conn.Write(chunk)
+				conn.Write([]byte("\r\n"))
+			}
+			conn.Write([]byte("0\r\n\r\n"))
+		case s.mode == "body-until-close-1MiB":
+			conn.Write([]byte("HTTP/1.1 200 OK\r\nConnection: close\r\nContent-Type: application/octet-stream\r\n\r\n"))
+			chunk := o4h.Pattern('K', 0, 32768)
+			for i := 0; i < 32; i++ {
+				if _, err := conn.Write(chunk); err != nil {
+					return
+				}
+			}
+			return
 		case s.mode == "close-immediately":
 			return
 		default:
@@ -1115,7 +1136,7 @@ func (s *meekSrv) closeAll() {
 }
 
 func meekScenarios(cfg *mc.Config, emit func(mc.Scenario)) {
-	modes := []string{"status-500", "status-404-body", "status-302", "body-overlong", "body-max", "empty", "cut-in-headers", "cut-in-body", "garbage", "chunked-endless-header", "close-immediately"}
+	modes := []string{"status-500", "status-404-body", "status-302", "body-overlong", "body-max", "body-chunked-1MiB", "body-until-close-1MiB", "empty", "cut-in-headers", "cut-in-body", "garbage", "chunked-endless-header", "close-immediately"}
 	for _, mode0 := range append(append([]string{}, modes...), "burst/cut-in-body", "burst/close-immediately", "burst/status-500", "burst/cut-in-headers") {
 		mode0 := mode0
 		burst := strings.HasPrefix(mode0, "burst/")
@@ -1208,6 +1229,9 @@ func meekScenarios(cfg *mc.Config, emit func(mc.Scenario)) {
 			srv.mu.Lock()
 			nreq := srv.n
 			srv.mu.Unlock()
+			if nreq > 0 && len(got) > 65536*nreq {
+				fail(c, "bounded-buffers", "bloat/meek-response/"+mode, "%s: Read delivered %d bytes out of %d responses: more than 65536 bytes of one response were buffered", what, len(got), nreq)
+			}
 			if nreq > 400 {
 				fail(c, "no-spin", "spin/meek-requests/"+mode, "%s: %d requests within 20 minutes of model time against a failing server", what, nreq)
 			}
